@@ -16,7 +16,7 @@ Inductive sval :=
 | SInt (z : Z)
 | SText (t : text)
 | SBool (b : bool)
-| SDec (d : dec)
+| SDec (d : decimal)
 | SOpq (k : okind) (key : Z) (canon : text).
 
 (** order of the value space, where there is one *)
